@@ -358,12 +358,13 @@ def countMixEntropy (m : Mix α Nat) : Option α :=
       | _, _ => none
     | _ => none
 
-/-- mixture.rs:696-711 `bernmix_entropy!` (`Mixture<Bernoulli>`), AS CODED:
-    `ln_f(true).exp().mul_add(ln_f(true), ln_f(false).exp() * ln_f(false))` = `+Σ f ln f` (the sign is a C08 finding) -/
+/-- mixture.rs:696-711 `bernmix_entropy!` (`Mixture<Bernoulli>`):
+    `-ln_f(true).exp().mul_add(ln_f(true), ln_f(false).exp() * ln_f(false))` = `−Σ f ln f`
+    (the minus sign was missing in the pinned source: repaired by a `fix:` commit) -/
 def bernMixEntropy (m : Mix α Bool) : α :=
   let lt := lnF m true
   let lf := lnF m false
-  mulAdd (RealLike.exp lt) lt (RealLike.exp lf * lf)
+  Neg.neg (mulAdd (RealLike.exp lt) lt (RealLike.exp lf * lf))
 
 /-- mixture.rs:713-727 `catmix_entropy!` (`Mixture<Categorical>`): `-Σ_{x < k₀} f ln f`, `k₀` = number of categories of
     the FIRST component; `kFirst = none` = the panic of `components()[0]` -/
